@@ -18,7 +18,7 @@ func init() {
 	register(&Rule{ID: "C06.MERGE", Min: 3, Doc: "merging object types never yields an object less open than either operand", Run: runC06Merge})
 	register(&Rule{ID: "C10.AT", Min: 1, Doc: "a remembered project is reused only for a path whose own lookup finds the same root", Run: runC10At})
 	register(&Rule{ID: "C10.CACHEKEY", Min: 4, Doc: "per-repository caches are keyed by the root directory as is", Run: runC10CacheKey})
-	register(&Rule{ID: "C16.ONCE", Min: 4, Doc: "a format template is executed once per run over the diagnostics of all files", Run: runC16Once})
+	register(&Rule{ID: "C16.ONCE", Min: 6, Doc: "a format template is executed once per run over the diagnostics of all files", Run: runC16Once})
 	register(&Rule{ID: "C17.STATELESS", Min: 7, Doc: "every non-empty filter value is validated, by the validator of its filter kind, whatever was validated before", Run: runC17Stateless})
 	register(&Rule{ID: "C18.ORDER", Min: 2, Doc: "search and reconstruction iterate the neighbours of a node in the same (stored) order", Run: runC18Order})
 	register(&Rule{ID: "C15.CONFPAT", Min: 1, Doc: "every ignore pattern of the configuration file is compiled on its own", Run: runC15ConfPat})
@@ -753,6 +753,8 @@ func runC16Once(c *Ctx) {
 	if n < 3 {
 		c.undecided("Linter|formatter calls", token.NoPos, fmt.Sprintf("only %d formatter calls found", n))
 	}
+	// the loops that hand the diagnostics of one file to the renderer visit every one of them
+	runC16OnceEvery(c)
 }
 
 // accumulatedOverFiles: v (used in block use) is a slice accumulated over ALL per-file records: the phi of a loop header
